@@ -942,7 +942,7 @@ class D10(Extra):
             if any(v == 'nan' for u in ups for _, v in u):
                 return 'ok', None
             if mlines[1] == 'ONLMONRESET BAD' or not mlines[1].startswith('ONLMONRESET'):
-                return 'violation', dict(det, kind='list', expected={'source': 'DenseOnlineReset.run_api', 'value': mlines[1]}, observed='every call returned')
+                return 'model-differs', dict(det, kind='list', expected={'source': 'DenseOnlineReset.run_api', 'value': mlines[1]}, observed='every call returned')
             exp = []
             for part in mlines[1][len('ONLMONRESET'):].split('|'):
                 part = part.strip()
@@ -953,7 +953,7 @@ class D10(Extra):
             got = [dense.from_impl(u) for u in ups]
             same = len(exp) == len(got) and all(len(x) == len(y) and all(float(p[0]) == float(q[0]) and float(p[1]) == float(q[1]) for p, q in zip(x, y)) for x, y in zip(exp, got))
             if not same:
-                return 'violation', dict(det, kind='list', expected={'source': 'DenseOnlineReset.run_api: the list of every update(), history and continuation', 'samples_ticks': [[[t_, fml.val_sx(v_)] for t_, v_ in u] for u in exp]},
+                return 'model-differs', dict(det, kind='list', expected={'source': 'DenseOnlineReset.run_api: the list of every update(), history and continuation', 'samples_ticks': [[[t_, fml.val_sx(v_)] for t_, v_ in u] for u in exp]},
                                          observed={'samples_ticks': got})
             self.reset_lists = getattr(self, 'reset_lists', 0) + 1
         return 'ok', None
